@@ -179,7 +179,11 @@ func (_this *markerObjectBuilder) BuildEndContainer(ctx *Context) {
 }
 
 func (_this *markerObjectBuilder) BuildArtificiallyEndContainer(ctx *Context) {
-	_this.child.BuildArtificiallyEndContainer(ctx)
+	// This builder is only on top of the stack while the marked object has
+	// not begun, so there is nothing to finish: step aside. (Ending the child
+	// from here made it unstack this builder instead of itself and then
+	// receive its own container as a finished child.)
+	ctx.RemoveBuilder(_this)
 }
 
 func (_this *markerObjectBuilder) NotifyChildContainerFinished(ctx *Context, value reflect.Value) {
